@@ -685,6 +685,44 @@ impl<T: Entry + Clone, const N: usize> Matrix<T, N, N>
 }
 
 
+/// Verification hooks: public access to the private linear algebra routines.
+#[cfg(rust_dsymbols_verif)]
+impl<T: Entry + Clone, const N: usize, const M: usize> Matrix<T, N, M>
+    where for <'a> &'a T: ScalarPtr<T>
+{
+    pub fn verif_rank(&self) -> usize {
+        self.rank()
+    }
+
+    pub fn verif_null_space(&self) -> Vec<Matrix<T, M, 1>> {
+        self.null_space()
+    }
+
+    pub fn verif_solve<const K: usize>(&self, rhs: &Matrix<T, N, K>)
+        -> Option<Matrix<T, M, K>>
+        where T: Div<T, Output=T>
+    {
+        self.solve(rhs)
+    }
+}
+
+
+#[cfg(rust_dsymbols_verif)]
+impl<T: Entry + Clone, const N: usize> Matrix<T, N, N>
+    where for <'a> &'a T: ScalarPtr<T>
+{
+    pub fn verif_determinant(&self) -> T {
+        self.determinant()
+    }
+
+    pub fn verif_inverse(&self) -> Option<Self>
+        where T: Div<T, Output=T>
+    {
+        self.inverse()
+    }
+}
+
+
 #[test]
 fn test_matrix_copy() {
     let m1 = Matrix::from([[1, 2], [3, 4]]);
